@@ -13,7 +13,7 @@ from .. import history
 from ..models import KEYS, sorted_key, State
 from ..observe import observe, key_from_lib, lib_args
 
-TIERS = {"quick": 1200, "thorough": 20000}
+TIERS = {"quick": 1200, "thorough": 40000}
 WATCHDOG_S = {"quick": 900, "thorough": 7200}
 RULE = ("case kinds by index: 0,1 mod 4 = container round trip (history end state of H/D/T/M, both formats); "
         "2 mod 4 = generated .hgr file; 3 mod 4 = generated HIF document. non-trivial = object/file has >=2 hyperedges "
